@@ -605,6 +605,16 @@ def limit_rule(run, ctx):
     init = [x for x in H.walk(fn["body"]) if x.get("k") == "Let" and x["pat"].get("name") == CNT]
     if CNT and (len(init) != 1 or H.canon(init[0].get("init")) != "0"):
         run.violation(fam, label, "count-init", H.where(fn), "the backtrack counter must start at 0")
+    # single writer: the limit is only meaningful if nothing else adjusts the counter (seed C14-r6-2 refunded the
+    # branches an EndAtomic cuts, so a search could backtrack without bound under any limit)
+    if CNT:
+        writes = [x for x in H.walk(fn["body"]) if x.get("k") in ("Assign", "AssignOp") and H.canon(x["l"]) == CNT]
+        extra = [x for x in writes if not (x["k"] == "AssignOp" and H.canon(x) == "%s += 1" % CNT)]
+        borrows = [x for x in H.walk(fn["body"]) if x.get("k") == "AddrOf" and x.get("mut") and H.canon(x.get("e", {})) == CNT]
+        for x in extra + borrows:
+            run.violation(fam, label, "count-writer", H.where(x), "the backtrack counter `%s` is written outside the one increment of the backtrack tail (`%s`): backtracks already spent would be forgotten and the limit not enforced" % (CNT, H.canon(x)[:120]))
+        if len(writes) - len(extra) != 1:
+            run.violation(fam, label, "count-writer-anchor", H.where(nd), "anchor-missing: expected exactly one `%s += 1` in vm::run, found %d" % (CNT, len(writes) - len(extra)))
     run.ok(fam, label, H.where(nd), n, "empty => Ok(None); count += 1; count > limit => Err; else pop and resume")
     # stack cap constant and default limit are not tiny
     label = "caps"
